@@ -13,7 +13,7 @@
 It does NOT decide "yields only genuine values" for every truncation/corruption, nor decompressor resource use.
 """
 from ..lib import *
-from ..inventory import natural_loops, panic_sites
+from ..inventory import natural_loops, panic_sites, ReviewedMatcher
 from ..dematrix import classify_de
 from ..core import short_loc, op_place, const_int
 from .c03 import fn_by_label
@@ -344,8 +344,10 @@ def loops(ctx, nx):
 
 def panics(ctx):
     f = ctx.f
-    used = {}
     n = 0
+    in_scope_ = [b for b in f.body_list if (fn_label(b).startswith(P) or fn_label(b).startswith('<' + P)) and not b.j.get('from_expansion')]
+    matcher = ReviewedMatcher('C17', PANIC_REVIEWED, {short_fn(fn_label(b)) for b in in_scope_})
+    ctx.panic_matcher = matcher
     for b in f.body_list:
         fl = fn_label(b)
         if not (fl.startswith(P) or fl.startswith('<' + P)) or b.j.get('from_expansion'):
@@ -358,10 +360,7 @@ def panics(ctx):
                 # [u8; N] conversions of a slice just obtained with a constant length
                 pass
             if why is None:
-                key = (short_fn(fl), kind)
-                if key in PANIC_REVIEWED and used.get(key, 0) < PANIC_REVIEWED[key][0]:
-                    used[key] = used.get(key, 0) + 1
-                    why = 'reviewed: ' + PANIC_REVIEWED[key][1]
+                why = matcher.match(b, short_fn(fl), kind, bb)
             ordn = sum(1 for k2, bb2, _, _ in panic_sites(b) if k2 == kind and bb2 < bb)
             ctx.ob('PANIC', '%s/%s#%d' % (fl, kind, ordn), why is not None, loc_,
                    ('panic-capable construct `%s` (%s): %s' % (kind, txt[:60], why)) if why else
